@@ -1,6 +1,7 @@
 """C02 - metric tensor and Jacobian: real MeshRegion.geometry2 / calcBeta / calcMetric / geometry1 run on a
 stub region whose MultiLocationArrays hold symbolic reals."""
 import types
+from fractions import Fraction
 
 import numpy
 import z3
@@ -38,8 +39,11 @@ def _loc_points(r):
     return [("centre", (0, 0)), ("ylow", (0, 0))]
 
 
-def build(env, orthogonal, bpsign, cs=1.0, bt_sign=1.0, psi_div=None, hy_any_sign=False, locs=None):
-    """stub region with symbolic R, hy, Bp, Bt (and beta) -> real geometry2 + calcMetric"""
+def build(env, orthogonal, bpsign, cs=1.0, bt_sign=1.0, psi_div=None, hy_any_sign=False, locs=None, geometry=None):
+    """stub region with symbolic R, hy, Bp, Bt (and beta) -> real geometry2 + calcMetric.
+    geometry = dict(gsign=+-1[, share=<geometry of another build>]): non-orthogonal only - instead of symbolic cos/sin(beta), a stencil of grid points
+    (radial displacement delta of symbolic direction and length at every centre/ylow entry) and the direction of grad(psi) are set up and the REAL
+    calcBeta computes beta from them; the per-entry geometry is returned in r.geom (convention-free reference for the metric and curvature claims)."""
     LOCS_ = LOCS if locs is None else locs
     r = stub_region(1, 1, orthogonal)
     if env.mode == "conc":
@@ -67,7 +71,61 @@ def build(env, orthogonal, bpsign, cs=1.0, bt_sign=1.0, psi_div=None, hy_any_sig
     if psi_div is not None:
         r.Bpxy = r.Bpxy / psi_div  # psi -> psi/k scales the poloidal field
     r.Btxy = bt_sign * bt
-    if not orthogonal:
+    if not orthogonal and geometry is not None:
+        share = geometry.get("share")
+        geom = {}
+        x0R, x0Z = (share["x0"] if share else (env.real("x0R", lo=1, hi=10), env.real("x0Z", lo=-10, hi=10)))
+        geom["x0"] = (x0R, x0Z)
+        for loc in LOCS_:
+            for idx in numpy.ndindex(getattr(hy, loc).shape):
+                key = (loc, idx)
+                if share:
+                    p0 = share[key]
+                    # same grid points, grad(psi) reversed
+                    p = dict(cu=geometry["gsign"] * p0["cu0"], su=geometry["gsign"] * p0["su0"], cu0=p0["cu0"], su0=p0["su0"], d=p0["d"], cv=p0["cv"], sv=p0["sv"])
+                else:
+                    # direction of grad(psi): fixed (3/5, 4/5) - every expression involved is invariant under rotations of the poloidal plane, and a
+                    # symbolic direction on top of the symbolic displacement direction makes the normal forms too large
+                    cu0, su0 = Fraction(3, 5), Fraction(4, 5)
+                    # radial displacement direction = dsign*(c0*g_hat + s0*b_hat) with c0 >= 7/25 by construction (|t| <= 3/4): it points towards
+                    # increasing psi iff dsign = +1 (the x index increases with psi iff bpsign = +1)
+                    c0, s0 = _unit(env, "v_%s_%d_%d" % ((loc,) + idx), lo=-0.75, hi=0.75)
+                    dsign = geometry.get("dsign", 1.0)
+                    cv, sv = dsign * (c0 * cu0 + s0 * su0), dsign * (c0 * su0 - s0 * cu0)
+                    p = dict(cu=geometry["gsign"] * cu0, su=geometry["gsign"] * su0, cu0=cu0, su0=su0, d=env.real("d_%s_%d_%d" % ((loc,) + idx), pos=True), cv=cv, sv=sv)
+                p["gmag"] = getattr(r.Rxy, loc)[idx] * getattr(bpabs, loc)[idx]        # |grad psi| = R |Bp|
+                p["delta"] = (p["d"] * p["cv"], p["d"] * p["sv"])
+                geom[key] = p
+        # stencil: xlow rows give the centre displacement, corner rows the ylow displacements (column j)
+        dc = geom[("centre", (0, 0))]["delta"]
+        r.Rxy.xlow[0, 0], r.Rxy.xlow[1, 0] = x0R, x0R + dc[0]
+        r.Zxy = MultiLocationArray(1, 1)
+        r.Zxy.xlow[0, 0], r.Zxy.xlow[1, 0] = x0Z, x0Z + dc[1]
+        for j in range(2):
+            dj = geom[("ylow", (0, j))]["delta"]
+            r.Rxy.corners[0, j], r.Rxy.corners[1, j] = x0R, x0R + dj[0]
+            r.Zxy.corners[0, j], r.Zxy.corners[1, j] = x0Z, x0Z + dj[1]
+        r.Zxy.centre[0, 0] = x0Z
+        r.Zxy.ylow[0, :] = x0Z
+
+        def fcomp(which):
+            def f(Rarr, Zarr):
+                loc = "centre" if numpy.shape(Rarr) == (1, 1) else "ylow"
+                out = numpy.empty(numpy.shape(Rarr), dtype=object if env.mode == "sym" else float)
+                for idx in numpy.ndindex(out.shape):
+                    q = geom[(loc, idx)]
+                    out[idx] = (q["cu"] if which == 0 else q["su"]) / q["gmag"]
+                return out
+            return f
+
+        r.meshParent = types.SimpleNamespace(equilibrium=types.SimpleNamespace(f_R=fcomp(0), f_Z=fcomp(1)))
+        if env.mode == "sym":
+            env.sqrt_hints = list(getattr(env, "sqrt_hints", []))
+            for q in geom.values():
+                if isinstance(q, dict):
+                    env.sqrt_hints += [core.lift_real(q["d"]), 1 / core.lift_real(q["gmag"])]
+        r.geom = geom
+    elif not orthogonal:
         cb = MultiLocationArray(1, 1)
         sb = MultiLocationArray(1, 1)
         for loc in LOCS_:
@@ -83,7 +141,8 @@ def build(env, orthogonal, bpsign, cs=1.0, bt_sign=1.0, psi_div=None, hy_any_sig
         r.cosBeta, r.sinBeta = cb, sb
         r.tanBeta = sb / cb
     r.calcHy = lambda: hy
-    r.calcBeta = lambda: None
+    if geometry is None:
+        r.calcBeta = lambda: None
     r.DDX = lambda expr: MultiLocationArray(1, 1).zero()
     r.calc_curvature = lambda: None
     if env.mode == "sym":
@@ -237,6 +296,7 @@ def _mk_calcbeta():
     def body(env):
         with sym_numpy(env):
             r = stub_region(1, 1, False)
+            r.bpsign = 1.0 if env.choose(2) == 0 else -1.0
             pts = {}
             for loc in LOCS:
                 gmag = env.real("gmag_" + loc, pos=True)
@@ -279,34 +339,70 @@ def _mk_calcbeta():
                 p = pts[loc]
                 g = lambda n: G(r, n, loc, (0, 0))  # noqa
                 env.claim_eq("cosBeta=ex_hat.gradpsi_hat@" + loc, g("cosBeta") * p["d"], p["delta"][0] * p["cu"] + p["delta"][1] * p["su"])
-                env.claim_eq("sinBeta=ex_hat.Bp_hat@" + loc, g("sinBeta") * p["d"], p["delta"][0] * p["su"] - p["delta"][1] * p["cu"])
+                # (the sign convention of sin(beta) is not a property: what the metric built on it must satisfy is decided in displacement_bpsign*)
+                env.claim_eq("sinBeta^2=(ex_hat.Bp_hat)^2@" + loc, (g("sinBeta") * p["d"]) ** 2, (p["delta"][0] * p["su"] - p["delta"][1] * p["cu"]) ** 2)
                 env.claim_eq("tanBeta=sin/cos@" + loc, g("tanBeta") * g("cosBeta"), g("sinBeta"))
                 env.claim_eq("cos^2+sin^2=1@" + loc, g("cosBeta") ** 2 + g("sinBeta") ** 2, 1)
     return body
 
 
+def real_beta_at_point(env, ghat, gmag, bpsign, name="pt"):
+    """run the REAL calcBeta on a one-cell stencil whose radial displacement is d*dsign*(c0*g_hat + s0*b_hat) (b_hat = g_hat rotated clockwise = direction of
+    Bp; dsign = bpsign: the x index increases with psi iff bpsign = +1) -> dict(cosb, sinb, tanb, delta, d).  Convention-free way to obtain the beta that
+    belongs to a given grid geometry."""
+    c0, s0 = _unit(env, "beta_dir_" + name, lo=-0.75, hi=0.75)
+    d = env.real("beta_len_" + name, pos=True)
+    bhat = (ghat[1], -ghat[0])
+    dv = (bpsign * (c0 * ghat[0] + s0 * bhat[0]), bpsign * (c0 * ghat[1] + s0 * bhat[1]))
+    delta = (d * dv[0], d * dv[1])
+    r0 = stub_region(1, 1, False)
+    r0.bpsign = bpsign
+    x0R, x0Z = env.real("beta_x0R_" + name, lo=1, hi=10), env.real("beta_x0Z_" + name, lo=-10, hi=10)
+    r0.Rxy, r0.Zxy = MultiLocationArray(1, 1), MultiLocationArray(1, 1)
+    r0.Rxy.xlow[0, 0], r0.Rxy.xlow[1, 0] = x0R, x0R + delta[0]
+    r0.Zxy.xlow[0, 0], r0.Zxy.xlow[1, 0] = x0Z, x0Z + delta[1]
+    for j in range(2):
+        r0.Rxy.corners[0, j], r0.Rxy.corners[1, j] = x0R, x0R + delta[0]
+        r0.Zxy.corners[0, j], r0.Zxy.corners[1, j] = x0Z, x0Z + delta[1]
+    r0.Rxy.centre[0, 0], r0.Zxy.centre[0, 0] = x0R, x0Z
+    r0.Rxy.ylow[0, :] = x0R
+    r0.Zxy.ylow[0, :] = x0Z
+
+    def fcomp(which):
+        def f(Rarr, Zarr):
+            out = numpy.empty(numpy.shape(Rarr), dtype=object if env.mode == "sym" else float)
+            out[...] = ghat[which] / gmag
+            return out
+        return f
+
+    r0.meshParent = types.SimpleNamespace(equilibrium=types.SimpleNamespace(f_R=fcomp(0), f_Z=fcomp(1)))
+    if env.mode == "sym":
+        env.sqrt_hints = list(getattr(env, "sqrt_hints", [])) + [core.lift_real(d), 1 / core.lift_real(gmag)]
+    r0.calcBeta()
+    return dict(cosb=r0.cosBeta.centre[0, 0], sinb=r0.sinBeta.centre[0, 0], tanb=r0.tanBeta.centre[0, 0], delta=delta, d=d, bhat=bhat)
+
+
 def _mk_displacement(bpsign):
+    """convention-free: the grid points (radial displacement delta between the x-faces) and the direction of grad(psi) are the inputs, the REAL
+    calcBeta turns them into beta, the real calcMetric into the metric; the claims compare with scalar products of the displacement vectors"""
     def body(env):
         with sym_numpy(env):
-            cs = bpsign  # sign(cos beta) = sign(dx) = bpsign (dx = grad psi . delta)
-            r, hy_, bpabs_ = build(env, False, bpsign, cs)
+            # the x index increases with psi iff bpsign = +1: the displacement between the x-faces points along bpsign*grad(psi) (plus a tangential part)
+            r, hy_, bpabs_ = build(env, False, bpsign, geometry={"gsign": 1.0, "dsign": bpsign})
             if not run_metric(env, r):
                 return
             for loc in LOCS:
                 idx = (0, 0)
                 g = lambda n: G(r, n, loc, idx)  # noqa
-                R, hy, bpabs = g("Rxy"), getattr(hy_, loc)[idx], getattr(bpabs_, loc)[idx]
-                cb, sb = g("cosBeta"), g("sinBeta")
-                gmag = R * bpabs  # |grad psi| = R |Bp|
-                cu, su = _unit(env, "u_" + loc)  # direction of grad psi
-                d = env.real("d_" + loc, pos=True)  # distance between the two x-faces
-                ghat, bhat = (cu, su), (su, -cu)
-                delta = (d * (cb * ghat[0] + sb * bhat[0]), d * (cb * ghat[1] + sb * bhat[1]))
-                dx = gmag * d * cb  # psi difference between the x-faces, locally linear psi
+                q = r.geom[(loc, idx)]
+                R, hy = g("Rxy"), getattr(hy_, loc)[idx]
+                gmag = q["gmag"]
+                ghat, bhat = (q["cu"], q["su"]), (q["su"], -q["cu"])     # grad(psi) direction, Bp direction (grad psi rotated clockwise)
+                delta = q["delta"]
+                dx = gmag * (delta[0] * ghat[0] + delta[1] * ghat[1])     # psi difference between the x-faces, locally linear psi
                 ex = (delta[0] / dx, delta[1] / dx)
                 # increasing-y unit vector on the flux surface = sign(Bp.y)*Bp_hat with sign(Bp.y)=bpsign (geometry1 enforces it)
                 ey = (hy * bpsign * bhat[0], hy * bpsign * bhat[1])
-                env.claim("sign(dx)=bpsign@" + loc, dx * bpsign > 0)
                 env.claim_eq("g_11=e_x.e_x@" + loc, g("g_11"), ex[0] * ex[0] + ex[1] * ex[1])
                 env.claim_eq("g_12=e_x.e_y@" + loc, g("g_12"), ex[0] * ey[0] + ex[1] * ey[1])
                 env.claim_eq("g_12^2=(e_x.e_y)^2@" + loc, g("g_12") ** 2, (ex[0] * ey[0] + ex[1] * ey[1]) ** 2)
@@ -319,6 +415,9 @@ def _mk_displacement(bpsign):
                 env.claim_eq("g12=gradx.grady@" + loc, g("g12"), gradx[0] * grady[0] + gradx[1] * grady[1])
                 env.claim_eq("g12^2=(gradx.grady)^2@" + loc, g("g12") ** 2, (gradx[0] * grady[0] + gradx[1] * grady[1]) ** 2)
                 env.claim_eq("g22=|grady|^2@" + loc, g("g22"), grady[0] ** 2 + grady[1] ** 2)
+                # d(zShift)/dy = hy*Bt/(R|Bp|) (C06): g13 = gradx.gradz with gradz = grad(zeta) - nu*grady, g_23 = e_y.e_z + ... is covered by the inverse
+                nu = hy * g("Btxy") / (R * getattr(bpabs_, loc)[idx])
+                env.claim_eq("g13=-nu*gradx.grady@" + loc, g("g13"), -nu * (gradx[0] * grady[0] + gradx[1] * grady[1]))
     return body
 
 
@@ -326,7 +425,7 @@ from symx.runner import Ob  # noqa: E402
 
 OBLIGATIONS.append(Ob(
     "calcBeta_scalar_products", _mk_calcbeta(), tier="quick", family="calcBeta",
-    desc="real calcBeta: cosBeta = ex_hat.gradpsi_hat, sinBeta = ex_hat.Bp_hat at centre and ylow",
+    desc="real calcBeta: cosBeta = ex_hat.gradpsi_hat, |sinBeta| = |ex_hat.Bp_hat|, tan = sin/cos at centre and ylow (both bpsign)",
     encodes=["hypnotoad.core.mesh:MeshRegion.calcBeta"],
     stubs=["f_R,f_Z = grad(psi)/|grad(psi)|^2 (symbolic direction and magnitude)"],
     bounds="directions by rational parametrisation; all magnitudes > 0"))
@@ -335,7 +434,7 @@ for _bs in (1.0, -1.0):
         "displacement_bpsign%+d" % int(_bs), _mk_displacement(_bs), tier="quick", family="calcMetric",
         desc="covariant (and poloidal contravariant) components equal scalar products of the actual displacements per unit dx, dy",
         encodes=["hypnotoad.core.mesh:MeshRegion.calcMetric"],
-        stubs=["beta defined by the two scalar products proved for calcBeta", "locally linear psi", "calcHy -> symbols", "DDX -> 0"],
+        stubs=["grid points and grad(psi) direction symbolic; REAL calcBeta", "locally linear psi", "calcHy -> symbols", "DDX -> 0"],
         bounds="directions by rational parametrisation; all magnitudes > 0"))
 
 
